@@ -33,7 +33,7 @@ QUIET_PHASES = ("CALL", "IDLE", "CLOSE", "DROP", "GC")
 
 def _single_atom(c: Chooser, v, streams: List):
     kind = c.weighted([("cmp_lit", 6), ("chain", 1.5), ("call", 1.5), ("idx", 0.7), ("in_lit", 2), ("contains_lit", 2),
-                       ("pred_big", 1.5), ("flatten", 1), ("in_stream", 1.2)])
+                       ("pred_big", 1.5), ("flatten", 1), ("in_stream", 1.2), ("item_eq", 1.0)])
     lit = c.int(0, 3)
     op = c.pick(eval_gen.CMP_OPS)
     if kind == "cmp_lit":
@@ -52,6 +52,8 @@ def _single_atom(c: Chooser, v, streams: List):
         return ["pred", "Big", {"x": v, "k": c.int(0, 3)}]
     if kind == "flatten":
         return ["cmp", op, ["flatten", ["attr", v, "xs"]], ["lit", lit]]
+    if kind == "item_eq":
+        return ["cmp", c.pick(["==", "!="]), ["attr", v, "ref"], ["item", 0]]
     if kind == "in_stream":
         streams.append([c.int(0, 3) for _ in range(c.int(1, 4))])
         return ["in", ["attr", v, "a"], ["stream", len(streams) - 1]]
@@ -253,15 +255,21 @@ def execute(scenario: Dict) -> Dict:
     # eligibility for the demand rules
     elig5, elig6 = {}, {}
     for qi, qd in enumerate(scenario["queries"]):
-        vs = _vars([qd.get("sel", []), qd.get("conds", [])], set())
+        vs = _vars([qd.get("sel", []), qd.get("conds", []), qd.get("rule") or []], set())
         kinds = {v: next((d["kind"] for d in scenario["domains"] if d["id"] == scenario["vars"][v]["dom"]), None) for v in vs if v < len(scenario["vars"])}
-        plain = qd.get("q") == "an" and not qd.get("quant") and not qd.get("rule") and not _has_tag([qd.get("conds", [])], ("exists", "forall", "subq", "shared"))
+        plain = qd.get("q") == "an" and not qd.get("quant") and not _has_tag([qd.get("conds", []), qd.get("rule") or []], ("exists", "forall", "subq", "shared"))
+        is_rule = bool(qd.get("rule"))
+        if is_rule and '"next"' in kernel.canonical(qd["rule"]):
+            plain = False  # next_rule is a union: it evaluates both branches over the whole domain by design
         # or_ over operands with different variable sets (a predicate/function call is a variable of its own)
         # is a union: it evaluates both sides over the whole domain by design
         union_like = _has_tag([qd.get("conds", [])], ("or",)) and _has_tag([qd.get("conds", [])], ("pred", "fn"))
         plain = plain and not union_like
         distinct_doms = len({scenario["vars"][v]["dom"] for v in kinds}) == len(kinds)
-        elig5[qi] = plain and len(vs) == 1 and qd.get("shape") == "entity" and qd["sel"] == [["var", next(iter(vs))]] and all(k in ("gen", "inf") for k in kinds.values())
+        # a rule query over one variable infers one instance per binding; the binding's element is read from the
+        # inferred instance's keyword arguments
+        elig5[qi] = plain and len(vs) == 1 and qd.get("shape") == "entity" and (is_rule or qd["sel"] == [["var", next(iter(vs))]]) and all(k in ("gen", "inf") for k in kinds.values())
+        plain = plain and not is_rule
         elig6[qi] = (plain and len(vs) >= 2 and distinct_doms and all(k == "gen" for k in kinds.values())
                      and not _has_tag([qd.get("conds", [])], ("or", "not", "flatten"))
                      and all(isinstance(s, list) and s[0] == "var" for s in qd["sel"]))
@@ -284,8 +292,13 @@ def execute(scenario: Dict) -> Dict:
 
     def check_demand(task, value):
         qi = task["qi"]
-        if elig5.get(qi) and isinstance(value, list) and value and value[0] == "i":
-            p = position_of(value[1])
+        probe_value = value
+        if elig5.get(qi) and isinstance(value, list) and value and value[0] == "k":
+            items = [x[1] for x in value[2] if isinstance(x[1], list) and x[1] and x[1][0] == "i"]
+            probe_value = items[0] if items else None
+        if elig5.get(qi) and isinstance(probe_value, list) and probe_value and probe_value[0] == "i":
+            value5 = probe_value
+            p = position_of(value5[1])
             if p is not None:
                 pulled = mon.pulls.get(p[0], 0)
                 counters.inc("probe.L5_checked")
@@ -301,18 +314,40 @@ def execute(scenario: Dict) -> Dict:
             elif isinstance(value, list) and value and value[0] == "i":
                 row["?"] = value[1]
             exact = False
+            placed = []
             for label, serial in row.items():
                 p = position_of(serial)
-                if p is not None and mon.pulls.get(p[0], 0) == p[1] + 1:
-                    exact = True
+                if p is not None:
+                    placed.append((p[1], mon.pulls.get(p[0], 0)))
+                    if mon.pulls.get(p[0], 0) == p[1] + 1:
+                        exact = True
             qd = scenario["queries"][qi]
-            complete = len(row) == len(_vars([qd.get("sel", []), qd.get("conds", [])], set())) and "?" not in row
-            if exact:
+            complete = len(row) == len(_vars([qd.get("sel", []), qd.get("conds", [])], set())) and "?" not in row and len(placed) == len(row)
+            if complete:
+                # Any lazy nested-loop evaluation, whatever join order it picks, satisfies: the outermost variable has
+                # been pulled exactly as far as its element of the row, and as long as all outer variables are still on
+                # their first element every inner stream is on its first pass, so it too has been pulled exactly as far
+                # as its element.  (Once an outer variable has advanced, inner streams may be exhausted.)
+                import itertools
+
+                def fits(order):
+                    first_pass = True
+                    for pos, pulled in order:
+                        if first_pass and pulled != pos + 1:
+                            return False
+                        if pulled < pos + 1:
+                            return False
+                        first_pass = first_pass and pos == 0
+                    return True
+
+                if any(fits(order) for order in itertools.permutations(placed)):
+                    counters.inc("probe.L6_nested_loop_order_found")
+                else:
+                    counters.inc("probe.L6_checked_failed")
+                    verdicts.append(kernel.verdict("C10.L6", f"holding the row {row}, the streams have been pulled further than any lazy nested-loop order needs (positions and pulls: {placed})", phase="STEP", via="no-driver" if not exact else "inner-over-pull", query=qi))
+                    task["flagged"] = True
+            elif exact:
                 counters.inc("probe.L6_driver_found")
-            elif complete:
-                counters.inc("probe.L6_checked_failed")
-                verdicts.append(kernel.verdict("C10.L6", f"no variable of the row {row} is at the position its stream has been pulled to (pulled: {dict(mon.pulls)})", phase="STEP", via="no-driver", query=qi))
-                task["flagged"] = True
             else:
                 counters.inc("probe.L6_inconclusive")
 
